@@ -255,15 +255,53 @@ func (e *Exec) checkInvs(st *State, li *loopInfo, phase string, ctx *Ctx) {
 		e.checkIterationErrors(st, li, ctx)
 	}
 	for i, inv := range li.spec.Invariants {
-		goal := e.clause(inv.X, st, nil, li.pos+1, e.info(ctx), clauseInv)
+		goal, ok := e.invClause(inv, i, st, li, ctx)
+		if !ok {
+			continue
+		}
 		e.emit(st, "inv-"+phase, fmt.Sprintf("loop[%s].inv[%d].%s", li.key, i+1, phase), goal, inv.Tags, li.pos, inv.Src)
 	}
 }
 
 func (e *Exec) assumeInvs(st *State, li *loopInfo, ctx *Ctx) {
-	for _, inv := range li.spec.Invariants {
-		st.assumeTagged(e.clause(inv.X, st, nil, li.pos+1, e.info(ctx), clauseInv), onlyOwnTags(inv.Tags))
+	for i, inv := range li.spec.Invariants {
+		if goal, ok := e.invClause(inv, i, st, li, ctx); ok {
+			st.assumeTagged(goal, onlyOwnTags(inv.Tags))
+		}
 	}
+}
+
+// dropInvs: loop invariants left out of a run ("<func key>.loop[<loop>].inv[<n>]"). An invariant without a property tag
+// is a proof hint, not a claim: if it no longer holds (or names a local that no longer exists) after a change, the
+// function is verified again WITHOUT it - neither assumed nor checked - and only if everything else is still
+// discharged does the check stay quiet (check.go, lapse). Tagged invariants carry a property and never lapse.
+var dropInvs = map[string]bool{}
+
+func invKey(fn string, li *loopInfo, i int) string {
+	return fmt.Sprintf("%s.loop[%s].inv[%d]", fn, li.key, i+1)
+}
+
+func (e *Exec) invClause(inv *Clause, i int, st *State, li *loopInfo, ctx *Ctx) (goal string, ok bool) {
+	k := invKey(e.fi.Key, li, i)
+	if dropInvs[k] {
+		return "", false
+	}
+	if len(inv.Tags) == 0 {
+		defer func() {
+			if r := recover(); r != nil {
+				if u, isU := r.(unsupported); isU {
+					if e.lapsed == nil {
+						e.lapsed = map[string]string{}
+					}
+					e.lapsed[k] = u.what
+					goal, ok = "", false
+					return
+				}
+				panic(r)
+			}
+		}()
+	}
+	return e.clause(inv.X, st, nil, li.pos+1, e.info(ctx), clauseInv), true
 }
 
 func (e *Exec) setGhost(st *State, li *loopInfo, name, term string) {
@@ -391,8 +429,20 @@ func (e *Exec) execRange(s *ast.RangeStmt, label string, st *State, ctx *Ctx, k 
 		e.setGhost(init, li, "rest", seq)
 		e.setGhost(init, li, "idx", "0")
 	}
+	// `for i := range n` is `for i := 0; i < n; i++`: at the loop head the counter is the number of completed iterations,
+	// so invariants may mention it exactly as they would for the three-clause form
+	var intKey *types.Var
+	if kind == rkInt && s.Tok == token.DEFINE {
+		if id, ok := s.Key.(*ast.Ident); ok && id.Name != "_" {
+			intKey, _ = info.Defs[id].(*types.Var)
+		}
+	}
 	if kind == rkInt {
 		e.setGhost(init, li, "idx", "0")
+		if intKey != nil {
+			init.env[intKey] = "0"
+			init.ghosts[intKey.Name()+"@loop"] = "0"
+		}
 	}
 	vars, fields := e.assignedVars(st, info, s.Body)
 	for v := range vars {
@@ -430,6 +480,11 @@ func (e *Exec) execRange(s *ast.RangeStmt, label string, st *State, ctx *Ctx, k 
 		idx = e.fresh(head, "idx", "Int")
 		e.setGhost(head, li, "idx", idx)
 		head.pc = append(head.pc, "(<= 0 "+idx+")")
+		if intKey != nil {
+			head.env[intKey] = idx
+			head.ghosts[intKey.Name()+"@loop"] = "0"
+			head.ghosts[intKey.Name()+"@iter"] = idx
+		}
 	}
 	switch kind {
 	case rkMap, rkSortedMap:
@@ -559,6 +614,9 @@ func (e *Exec) execRange(s *ast.RangeStmt, label string, st *State, ctx *Ctx, k 
 		}
 		if kind == rkInt {
 			e.setGhost(nx, li, "idx", "(+ "+idx+" 1)")
+			if intKey != nil {
+				nx.env[intKey] = "(+ " + idx + " 1)"
+			}
 		}
 		if idx != "" {
 			nx.ghosts["idx@iter"] = idx // the index of the iteration that just ended (for transition clauses)
